@@ -245,6 +245,11 @@ var probes = []string{
 	"3| in 1; setq v0; export v0; defun f0; export f0; in 0; use 1; rename 1; in 1; setq v0; rename 1; in 0; unuse 1",
 	"3| intern v0; in 1; setq v0; export v0; in 0; use 1; unintern v0; setq v0; unintern v0",
 	"3| in 1; setq v0; export v0; in 0; use 1; intern v0; unintern v0",
+	// a symbol that exists (interned, unexported) before its definition
+	"3| in 1; use 0; in 0; intern f0; defun f0; in 1",
+	"3| intern f0; defun f0; in 1; use 0",
+	"3| in 1; use 0; in 0; intern v0; defvar v0; in 1",
+	"3| in 1; use 0; in 0; intern f0; export f0; defun f0; unexport f0; fmakunbound f0; intern f0; defun f0",
 }
 
 func parseProbe(src string) Case {
@@ -436,8 +441,10 @@ func randOp(r *rand.Rand, w *model.World, ext bool) model.Op {
 		}
 	case "export", "unexport":
 		op.N = fw.Pick(r, allNames)
-	case "setq", "defvar", "makunbound", "intern", "unintern":
+	case "setq", "defvar", "makunbound", "unintern":
 		op.N = fw.Pick(r, varNames)
+	case "intern":
+		op.N = fw.Pick(r, allNames) // a function name too: the symbol exists before its defun
 	case "defun", "fmakunbound":
 		op.N = fw.Pick(r, funNames)
 	case "defpackage":
@@ -866,8 +873,8 @@ func run(x counter, c Case) (res result) {
 		res.trace = append(res.trace, src)
 		wantErr := w.ExpectError(op)
 		wantStatus := ""
-		if op.K == "intern" {
-			wantStatus = internStatus(w, op.N)
+		if op.K == "intern" && model.KindOf(op.N) == model.Var {
+			wantStatus = internStatus(w, op.N) // slip's intern looks at variables only
 		}
 		var err *sl.Err
 		var value slip.Object
@@ -1057,7 +1064,7 @@ func init() {
 		ID: "C13",
 		Rule: "a case is a history of package operations (in-package, use-package, unuse-package, export, unexport, setq, defvar, defun, makunbound, fmakunbound; " +
 			"in the long block also defpackage with :use/:export and, in a third of them, delete-package, rename-package, intern, unintern and the Go-level Import) over 3 user packages x 2 variable x 2 function names, run in fresh packages; " +
-			"block 0 = 64 hand-written probe histories (seed-independent; the strict ones pass through an avoided class but must hold); " +
+			"block 0 = 68 hand-written probe histories (seed-independent; the strict ones pass through an avoided class but must hold); " +
 			"block 1 = EVERY history of length 1..4 (quick) / 1..5 (thorough) up to renaming of packages and names (bounded-exhaustive: 73 246 / 1 520 638 cases; " +
 			"each looks at the state before and after its last operation, its prefixes being cases of their own); " +
 			"block 2 = seeded histories of length 5..8 (sampled, NOT exhaustive: the stated bound 8 is only reached this way); " +
